@@ -56,11 +56,20 @@ SetMax(S) == CHOOSE x \in S : \A y \in S : x >= y
 -------------------------------------------------------------------------------
 (* Delimiters.  --delimiter STR: a single character or a string without regex meta characters is a literal string,   *)
 (* anything else that compiles is a regular expression (delimiterRegexp; CHANGELOG 0.56).                            *)
+(* "A single character" is a CHARACTER whatever its encoding: the one-character strings e-acute (two bytes) and box   *)
+(* drawings vertical (three bytes) are literal delimiters just as "," is, and so is the two-character string          *)
+(* e-acute + box vertical (no meta character); the bracket expression over the two is a regular expression.          *)
+(* A literal delimiter occurs where the line has ITS CHARACTERS, all of them, in order (HasAt on symbols): never where  *)
+(* only a part of the encoding of one of them is found.  A character that merely shares bytes with a delimiter        *)
+(* character (e-grave C3 A8 / e-acute C3 A9; box horizontal E2 94 80 / box vertical E2 94 82) is field content.       *)
 AwkD == [kind |-> "awk", id |-> ""]
 StrPat(id) == CASE id = ","   -> <<",">>
                 [] id = ", "  -> <<",", " ">>
                 [] id = "TAB" -> <<"TAB">>
                 [] id = ":"   -> <<":">>
+                [] id = "e~"  -> <<"e~">>                 \* one non-ASCII character, two bytes
+                [] id = "bxv" -> <<"bxv">>                \* one non-ASCII character, three bytes
+                [] id = "e~bxv" -> <<"e~", "bxv">>        \* two non-ASCII characters
 RECURSIVE RunOf(_, _, _)
 RunOf(s, i, c) == IF i <= Len(s) /\ s[i] = c THEN 1 + RunOf(s, i + 1, c) ELSE 0
 (* length of the (leftmost-first, greedy) match of the regex that starts exactly at position i; 0 = no match there.  *)
@@ -70,6 +79,15 @@ ReLenAt(id, s, i) == CASE id = ","    -> IF s[i] = "," THEN 1 ELSE 0
                        [] id = "TAB"  -> IF s[i] = "TAB" THEN 1 ELSE 0
                        [] id = "[,:]" -> IF s[i] \in {",", ":"} THEN 1 ELSE 0
                        [] id = ",+"   -> RunOf(s, i, ",")
+                       [] id = "[e~bxv]" -> IF s[i] \in {"e~", "bxv"} THEN 1 ELSE 0
+(* the characters a delimiter occurrence can consist of *)
+DelimChars(d) == CASE d.kind = "awk" -> AwkBlanks
+                   [] d.kind = "str" -> {StrPat(d.id)[k] : k \in 1..Len(StrPat(d.id))}
+                   [] d.id \in {",", ",+"} -> {","}
+                   [] d.id = ", "      -> {",", " "}
+                   [] d.id = "TAB"     -> {"TAB"}
+                   [] d.id = "[,:]"    -> {",", ":"}
+                   [] d.id = "[e~bxv]" -> {"e~", "bxv"}
 DelimLenAt(d, s, i) == IF d.kind = "str" THEN (IF HasAt(s, i, StrPat(d.id)) THEN Len(StrPat(d.id)) ELSE 0)
                        ELSE ReLenAt(d.id, s, i)
 
@@ -298,6 +316,25 @@ AwkByCharacter(s) == LET t1 == Tokenize(s, AwkD)
                          t2 == Tokenize(Skeleton(s), AwkD) IN
                      /\ Len(t1) = Len(t2)
                      /\ \A i \in 1..Len(t1) : t1[i].p = t2[i].p /\ Len(t1[i].t) = Len(t2[i].t)
+(* The same for every delimiter: splitting is by character and only the delimiter's own characters matter.  Replacing  *)
+(* every other character of the line - in particular one whose UTF-8 encoding begins with the same bytes as a         *)
+(* delimiter character - by a letter moves no field boundary: same number of fields, same offsets, same lengths.      *)
+SkeletonD(s, d) == [i \in 1..Len(s) |-> IF s[i] \in DelimChars(d) THEN s[i] ELSE "a"]
+ByCharacter(s, d) == LET t1 == Tokenize(s, d)
+                         t2 == Tokenize(SkeletonD(s, d), d) IN
+                     /\ "a" \notin DelimChars(d)
+                     /\ Len(t1) = Len(t2)
+                     /\ \A i \in 1..Len(t1) : t1[i].p = t2[i].p /\ Len(t1[i].t) = Len(t2[i].t)
+(* a literal delimiter is matched as a whole string of characters: the field boundaries are exactly the ends of the   *)
+(* occurrences of the whole pattern found scanning left to right without overlap, whatever else the line contains     *)
+RECURSIVE LiteralEnds(_, _, _)
+LiteralEnds(s, p, i) == IF i + Len(p) - 1 > Len(s) THEN {}
+                        ELSE IF HasAt(s, i, p) THEN {i + Len(p) - 1} \cup LiteralEnds(s, p, i + Len(p))
+                        ELSE LiteralEnds(s, p, i + 1)
+LiteralWhole(s, d) == d.kind = "str" =>
+                      LET toks == Tokenize(s, d) IN
+                      /\ {toks[i].p : i \in 2..Len(toks)} = LiteralEnds(s, StrPat(d.id), 1)
+                      /\ Len(toks) = Cardinality(LiteralEnds(s, StrPat(d.id), 1)) + 1
 (* the documented examples, for a list of tokens *)
 RangeOf(lo, hi) == [ok |-> TRUE, lo |-> lo, hi |-> hi]
 SelectionDocumented(toks) ==
